@@ -1,7 +1,77 @@
 (** C05 — the MPD only moves forward, and publishTime identifies its content.
-    Only statements; proofs are [exact <lemma>]. *)
-From Verif Require Import GoSem Timeline TimelineProofs Publish.
+    Only statements; proofs are [exact <lemma>].
+    Window edges (theories/WindowProofs.v): [window_first] / [window_last] (theories/Window.v) are the
+    first and last segment listed by the MPD model at an instant: that is C02_timeline_is_window
+    (props/C02.v), restated here. *)
+From Verif Require Import GoSem Timeline TimelineProofs Publish Window WindowProofs.
 From VerifGen Require Consts.
 
 Theorem C05_consts : Consts.app_defaultStartNr = 0.
 Proof. reflexivity. Qed.
+
+(** The edges of the window are the first and last entry of the MPD's timeline. *)
+Theorem C05_edges_are_listed : forall r loopMS, wf r loopMS -> forall c now tsbdMS atoMS,
+  startS c * 1000 <= now -> 0 <= tsbdMS -> 0 <= atoMS -> atoMS * ts r <= 1000 * en (segAt r 0) ->
+  let se := generateTimelineEntries r (calcWrapTimes loopMS c now tsbdMS) atoMS in
+  let last := window_last r c atoMS now in
+  let first := window_first r c atoMS now tsbdMS in
+  (last < 0 -> se_startNr se = -1 /\ se_entries se = []) /\
+  (0 <= last ->
+     first <= last /\ se_startNr se = first /\
+     expand (se_entries se) = window_td r first last /\
+     se_lsi_nr se = last /\ se_lsi_start se = S r last /\ se_lsi_dur se = E r last - S r last).
+Proof. exact timeline_is_window. Qed.
+Print Assumptions C05_edges_are_listed.
+
+(** As wall-clock time increases under a fixed configuration, neither edge moves backwards
+    (all pairs of instants, within and across loop periods). *)
+Theorem C05_edges_monotone : forall r loopMS, wf r loopMS -> forall c atoMS tsbdMS now1 now2,
+  0 <= atoMS -> startS c * 1000 <= now1 <= now2 ->
+  window_last r c atoMS now1 <= window_last r c atoMS now2 /\
+  window_first r c atoMS now1 tsbdMS <= window_first r c atoMS now2 tsbdMS.
+Proof. exact edges_monotone. Qed.
+Print Assumptions C05_edges_monotone.
+
+(** Segment [n] is inside the live edge exactly from its availability instant
+    start + E n / timescale - ato on (in ms * timescale units; any instant, any timescale). *)
+Theorem C05_edge_step : forall r loopMS, wf r loopMS -> forall c atoMS now n, 0 <= n ->
+  (n <= window_last r c atoMS now <-> E r n * 1000 <= (now - startS c * 1000 + atoMS) * ts r).
+Proof. exact edge_step. Qed.
+Print Assumptions C05_edge_step.
+
+(** Hence the live edge is [n] exactly between the availability instants of [n] and [n + 1]:
+    it advances by one segment at a time. *)
+Theorem C05_edge_eq : forall r loopMS, wf r loopMS -> forall c atoMS now n, 0 <= n ->
+  (window_last r c atoMS now = n <->
+   E r n * 1000 <= (now - startS c * 1000 + atoMS) * ts r < E r (n + 1) * 1000).
+Proof. exact edge_eq. Qed.
+Print Assumptions C05_edge_eq.
+
+(** ... and the instant at which the edge reaches [n] is the first instant at which the segment
+    server stops answering 425 Too Early for segment [n] ([phase] 0 = too early, C04). *)
+Theorem C05_edge_is_availability : forall r loopMS, wf r loopMS -> forall c atoMS now tsbd n,
+  0 <= atoMS -> 0 <= n ->
+  (phase (checkTime (E r n + startS c * ts r) (ts r) now tsbd (Some atoMS)) = 0 <->
+   window_last r c atoMS now < n).
+Proof. exact edge_checkTime. Qed.
+Print Assumptions C05_edge_is_availability.
+
+(** Non-vacuity: 4 x 2 s loop, start 30 s, tsbd 10 s, availabilityTimeOffset 0.5 s.  Segment 34 ends
+    at 30 + 70 = 100 s and becomes available at 99.5 s: the last edge steps from 33 to 34 there,
+    the first edge from 28 to 29 (window start 89.5 s, segment 29 available at 89.5 s);
+    one millisecond earlier the server still answers too early for 34. *)
+Definition ex_rep : rep :=
+  {| segs := [ {| st := 0; en := 180000; snr := 1 |}; {| st := 180000; en := 360000; snr := 2 |};
+               {| st := 360000; en := 540000; snr := 3 |}; {| st := 540000; en := 720000; snr := 4 |} ];
+     ts := 90000 |}.
+Definition ex_cfg : tcfg := {| startS := 30; startNr := 7; tsbdS := 10; ato := Some 500 |}.
+Example C05_example :
+  wf ex_rep 8000 /\
+  map (fun now => (window_first ex_rep ex_cfg 500 now 10000, window_last ex_rep ex_cfg 500 now))
+      [30000; 31499; 31500; 99499; 99500; 100000; 101500]
+  = [(0, -1); (0, -1); (0, 0); (28, 33); (29, 34); (29, 34); (30, 35)] /\
+  map (fun now => phase (checkTime (E ex_rep 34 + 30 * 90000) 90000 now 10 (Some 500))) [99499; 99500] = [0; 1].
+Proof.
+  split; [|vm_compute; split; reflexivity].
+  constructor; cbn; try lia; try discriminate; repeat constructor; cbn; lia.
+Qed.
